@@ -83,10 +83,17 @@ def run(pid, tier, seed):
         try:
             for (nm, role), fi in frontend.members(rel, cls).items():
                 if any(isinstance(n, ast.Call) and isinstance(n.func, ast.Name) and n.func.id == "id" for st in fi.body for n in ast.walk(st)):
+                    # transient use: a static helper (no instance at hand) that stores into no attribute, subscript or global -
+                    # the ids can only reach its own locals and the local set its caller hands in
+                    stores = [n for st in fi.body for n in ast.walk(st)
+                              if (isinstance(n, (ast.Attribute, ast.Subscript)) and isinstance(n.ctx, (ast.Store, ast.Del)))
+                              or isinstance(n, (ast.Global, ast.Nonlocal))]
+                    if role == "static" and not stores:
+                        continue
                     idsites.append("%s.%s" % (cls, fi.name))
         except frontend.StructError:
             pass
-    syn(res, "anytree/node/**:id()-is-used-only-by-the-transient-duplicate-check", set(idsites) <= {"NodeMixin.__check_children", "LightNodeMixin.__check_children"},
+    syn(res, "anytree/node/**:id()-is-used-only-by-the-transient-duplicate-check", not idsites,
         "id() used in %s" % sorted(set(idsites)))
     bad_writers = [w for w in writers if w.split(".")[-1] not in WRITERS or "mixin.py" not in w]
     syn(res, "anytree/**:bookkeeping-attributes-written-only-by-the-mixins' mutators", not bad_writers,
